@@ -86,6 +86,24 @@ CHECKS.update({
         ref='DESIGN.md 2/C08'),
 })
 
+CHECKS.update({
+    'C04': dict(
+        technique='static analysis: provenance lint of every time-valued assignment and waveform store in _wave_eval; dimension type inference (Time/Duration/Int/Literal lattice) over the whole kernel; guard sets of eat/lst updates',
+        text='Decides, for all paths at once, that every emitted edge time is an operand edge time plus one delay entry of that operand\'s own line (static-timing window by induction with delays >= 0), and that the kernel is dimensionally well-typed, which is what makes it commute with shifting all times and with power-of-two scaling.',
+        note='NOT decided: strict monotonicity of timestamps for polarity-independent delays, tightness of the window, float over/underflow. A change that only breaks those is not detected.',
+        ref='DESIGN.md 2/C04'),
+    'C06': dict(
+        technique='static analysis: sibling comparison of CPU/GPU twin regions under explicit renamings with a tolerated-difference table, lane-variable flow lint over all 7 kernels, rebinding check of the delay-dataset selection, who-reads lint for c_reuse/strip_forks, attribute-existence check of cuda.*/numba.* against the mock classes',
+        text='Decides code-path independence structurally: one kernel source for CPU and GPU, identical capture/assign/transfer twins, lane variable confined to the last array index, dataset selection before any delay lookup, options confined to the sites C07/C08 analyse, mock CUDA API completeness.',
+        note='NOT decided: bit-identity of float results; effect of c_reuse/strip_forks is delegated to C07/C08; sampling (sd > 0) excluded as in the property.',
+        ref='DESIGN.md 2/C06'),
+    'C13': dict(
+        technique='static analysis: guard-set analysis of both capture loops, tuple-position/column agreement (result tuple, GPU stores, op columns 6..8, a_ctrl row provenance), overflow pairing rule, finite evaluation of the nrise/nfall integer formulas against an alternation oracle',
+        text='Decides which entries update initial/final/val/eat/lst/ovl (strict t < T), that result positions agree between CPU tuple, GPU stores and s[3..10], that a dropped edge is always counted and marks the terminator, that the count formulas are right for every waveform length, and that accumulation uses the output line\'s a_ctrl row with rise/fall weights in columns 7/8.',
+        note='NOT decided: "overflow indicator clear => identical to unlimited capacity" beyond the pairing rule; sd > 0 sampling; concrete weighted sums.',
+        ref='DESIGN.md 2/C13'),
+})
+
 NOT_YET = {
 }
 
